@@ -38,6 +38,9 @@ pub enum Gen {
         /// unrelated frames appended between the sends
         noise: u8,
     },
+    /// a duplex generator whose pipeline ends after one input (`| take 1`): it stops, is
+    /// started again, and the new instance must only see sends appended while *it* runs
+    DuplexRestart { first: String, second: String },
     /// `.spawn` without content
     NoContent,
     /// a second `.spawn` for a name that is running
@@ -55,7 +58,7 @@ pub fn strategy() -> BoxedStrategy<C18Case> {
     let plain = (
         prop_oneof![2 => Just(Shape::Single), 2 => Just(Shape::BareList), 3 => Just(Shape::EachStream), 2 => Just(Shape::RangeStream)],
         proptest::collection::vec(s(), 0..=5),
-        prop_oneof![4 => Just(1u8), 1 => Just(2u8)],
+        prop_oneof![8 => Just(1u8), 2 => Just(2u8), 1 => Just(3u8)],
     )
         .prop_map(|(shape, mut strings, lifecycles)| {
             if shape == Shape::Single {
@@ -79,7 +82,13 @@ pub fn strategy() -> BoxedStrategy<C18Case> {
         .prop_map(|(sends, noise)| Gen::Duplex { sends, noise });
     (
         0u8..2,
-        prop_oneof![6 => plain, 4 => duplex, 1 => Just(Gen::NoContent), 1 => Just(Gen::Respawn)],
+        prop_oneof![
+            6 => plain,
+            4 => duplex,
+            1 => ("[a-z]{5,8}", "[a-z]{5,8}").prop_map(|(first, second)| Gen::DuplexRestart { first, second }),
+            1 => Just(Gen::NoContent),
+            1 => Just(Gen::Respawn)
+        ],
     )
         .prop_map(|(ctx, gen)| C18Case { ctx, gen })
         .boxed()
@@ -192,6 +201,44 @@ fn run_in(case: &C18Case, nu: &mut Nu) -> Result<CaseInfo, Fail> {
             if l >= 2 {
                 labels.push("restart-observed".into());
             }
+        }
+        Gen::DuplexRestart { first, second } => {
+            let sp = nu.append(
+                "g.spawn",
+                ctx,
+                Some(b"each {|x| $\"hi: ($x)\"} | take 1"),
+                Some(MetaVal::O(vec![("duplex".into(), MetaVal::Bool(true))])),
+            )?;
+            let (_, ok) = nu.wait(Duration::from_secs(10), |fr| sourced(fr, &sp.id).iter().any(|w| w.topic == "g.start"))?;
+            if !ok {
+                return Err(gen_fail("duplex generator did not start within 10 s".into()));
+            }
+            nu.append("g.send", ctx, Some(first.as_bytes()), None)?;
+            // first lifecycle ends after one input; wait for the second instance
+            let (_, ok) = nu.wait(Duration::from_secs(12), |fr| sourced(fr, &sp.id).iter().filter(|w| w.topic == "g.start").count() >= 2)?;
+            if !ok {
+                let fr = nu.frames()?;
+                return Err(gen_fail(format!(
+                    "duplex generator with `| take 1` was sent one input but was not stopped and started again: {:?}",
+                    sourced(&fr, &sp.id).iter().map(|w| &w.topic).collect::<Vec<_>>()
+                )));
+            }
+            nu.append("g.send", ctx, Some(second.as_bytes()), None)?;
+            let (frames, ok) = nu.wait(Duration::from_secs(12), |fr| sourced(fr, &sp.id).iter().filter(|w| w.topic == "g.recv").count() >= 2)?;
+            let mine = sourced(&frames, &sp.id);
+            let mut got = vec![];
+            for r in mine.iter().filter(|w| w.topic == "g.recv") {
+                got.push(String::from_utf8_lossy(&nu.content(r.hash.as_ref().unwrap())?).to_string());
+                checks += 1;
+            }
+            let want = vec![format!("hi: {first}"), format!("hi: {second}")];
+            if !ok || got[..got.len().min(2)] != want[..] {
+                return Err(gen_fail(format!(
+                    "duplex generator restarted after one input: its instances produced {got:?}; the first was sent {first:?}, the second (after its .start) {second:?} — each send must be fed exactly once, to the instance running at that time"
+                )));
+            }
+            nontrivial = true;
+            labels.push("duplex-restart".into());
         }
         Gen::NoContent => {
             let sp = nu.append("g.spawn", ctx, None, None)?;
